@@ -261,6 +261,10 @@ func readerStreams(level int) []Stream {
 	addA("lib-lzma-eos", mustLibLZMA(LZCfg{DictCap: 4096}, text[:110]), text[:110], "lib")
 	addA("lib-lzma-size", mustLibLZMA(LZCfg{DictCap: 4096, Size: 110}, text[:110]), text[:110], "lib")
 	addA("lib-lzma-size+eos", mustLibLZMA(LZCfg{DictCap: 4096, Size: 110, EOS: true}, text[:110]), text[:110], "lib")
+	// empty content in the three termination modes (the reader's size-0 path)
+	addA("lib-lzma-size0", mustLibLZMA(LZCfg{DictCap: 4096, SizeInHeader: true}, nil), nil, "lib")
+	addA("lib-lzma-size0+eos", mustLibLZMA(LZCfg{DictCap: 4096, SizeInHeader: true, EOS: true}, nil), nil, "lib")
+	addA("lib-lzma-empty-eos", mustLibLZMA(LZCfg{DictCap: 4096}, nil), nil, "lib")
 	ops := greedyOps(text[:120], 0)
 	for mode, nm := range []string{"eos", "size", "size+eos"} {
 		enc, pl, err := ref.EncodeAlone(ref.Props{LC: 8, LP: 4, PB: 4}, 4096, ops, mode != 0, mode != 1)
@@ -314,6 +318,15 @@ func longStreams() []Stream {
 	text := textBytes(55, 12000)
 	mix := append(append(append([]byte(nil), text[:5000]...), randBytes(55, 3000)...), text[5000:9000]...)
 	var out []Stream
+	// the last chunk is an uncompressed one that straddles the physical end of the reader's
+	// 4097-slot ring buffer (offsets 4097 and 8194 of the output); raw chunks only
+	rawtail := append(append([]byte(nil), text[:3000]...), randBytes(56, 3000)...)
+	rawonly := randBytes(57, 9000)
+	out = append(out,
+		Stream{Name: "long-lib-lzma2-rawtail", Fmt: "lzma2", Data: mustLibLZMA2(L2Cfg{DictCap: 4096}, rawtail, []L2Step{{"w", 3000}, {"f", 0}}), Plain: rawtail, DictSize: 4096, Writer: "lib"},
+		Stream{Name: "long-lib-xz-rawtail", Fmt: "xz", Data: mustLibXZ(XZCfg{DictCap: 4096, Check: 1}, rawtail, 3000), Plain: rawtail, Writer: "lib"},
+		Stream{Name: "long-lib-lzma2-rawonly", Fmt: "lzma2", Data: mustLibLZMA2(L2Cfg{DictCap: 4096}, rawonly, []L2Step{{"w", 2500}, {"f", 0}, {"w", 2500}, {"f", 0}, {"w", 2500}, {"f", 0}}), Plain: rawonly, DictSize: 4096, Writer: "lib"},
+	)
 	out = append(out,
 		Stream{Name: "long-lib-xz-2blocks", Fmt: "xz", Data: mustLibXZ(XZCfg{DictCap: 4096, BlockSize: 7000, Check: 1}, text), Plain: text, Writer: "lib"},
 		Stream{Name: "long-lib-lzma2-mixed", Fmt: "lzma2", Data: mustLibLZMA2(L2Cfg{DictCap: 4096}, mix, []L2Step{{"w", 6000}, {"f", 0}}), Plain: mix, DictSize: 4096, Writer: "lib"},
